@@ -43,6 +43,48 @@ def _context_key(eng, cfg, n):
     return "?"
 
 
+def _drain_loops(eng, fi, cfg, es, un, cons):
+    """Heads of loops that, from inside the consumer loop of a parked list, offer the current entry and all later ones to a record consumer:
+    `for j in range(<consumer loop variable>, <the consumer loop's own upper bound>)` whose body unpacks `L[idx(j)]` with the consumer's own index expression
+    (loop variable renamed) and hands the unpacked residual to a consumer."""
+    import re
+    out = set()
+    # the consumer loop: innermost for-loop containing the unpack
+    outer = [(h, st) for (h, kind, st) in cfg.loops if kind == "for" and un in cfg.loop_nodes(h)]
+    if not outer:
+        return out
+    h0, st0 = min(outer, key=lambda hs: len(cfg.loop_nodes(hs[0])))
+    if not (isinstance(st0.target, ast.Name) and isinstance(st0.iter, ast.Call) and ekey(st0.iter.func) == "range" and st0.iter.args):
+        return out
+    v = st0.target.id
+    upper0 = ekey(st0.iter.args[-1] if len(st0.iter.args) >= 2 else st0.iter.args[0])
+    uidx = ekey(cfg.ast_of(un).value.slice)
+
+    def ren(txt, name):
+        return re.sub(r"\b%s\b" % re.escape(name), "VAR", txt)
+    for (h, kind, st) in cfg.loops:
+        if kind != "for" or h == h0 or not any(x is st for x in ast.walk(st0)):
+            continue          # (lexically inside the consumer loop: a branch that returns is not part of its natural loop)
+        if not (isinstance(st.target, ast.Name) and isinstance(st.iter, ast.Call) and ekey(st.iter.func) == "range" and len(st.iter.args) == 2):
+            continue
+        lo, up = st.iter.args
+        if not (isinstance(lo, ast.Name) and lo.id == v and ekey(up) == upper0):
+            continue
+        j = st.target.id
+        inner_unpack = None
+        for n in cfg.loop_nodes(h):
+            a = cfg.ast_of(n)
+            if cfg.kind(n) == "stmt" and isinstance(a, ast.Assign) and isinstance(a.targets[0], (ast.Tuple, ast.List)) and isinstance(a.value, ast.Subscript) \
+                    and isinstance(a.value.value, ast.Name) and a.value.value.id == es.listvar and ren(ekey(a.value.slice), j) == ren(uidx, v):
+                inner_unpack = (n, assigned_names(a.targets[0]))
+        if inner_unpack is None:
+            continue
+        rv = inner_unpack[1][0]
+        if any(c.node in cfg.loop_nodes(h) and c.arg("rvec") is not None and rv in mentions(c.arg("rvec")) for c in cons):
+            out.add(h)
+    return out
+
+
 def rule_results_consumed(eng, rep, rule="C04-1.every-evaluation-result-is-offered-to-the-model"):
     pos = result_positions(eng)       # e.g. ['rvec_list', 'obj_list', 'num_samples_run', 'exit_info']
     sites = eval_sites(eng)
@@ -79,12 +121,13 @@ def rule_results_consumed(eng, rep, rule="C04-1.every-evaluation-result-is-offer
                         if kw.arg == "rvec_to_save" and rv in mentions(kw.value):
                             cons_nodes.add(cfg.cfg_node(ci.node))
             other_evals = set(e.node for e in ess) | set(unpack_nodes) - {un}
+            drains = _drain_loops(eng, fi, cfg, es, un, cons) if es.mode == "list" else set()
 
-            def node_fn(n, s, un=un, cons_nodes=cons_nodes):
+            def node_fn(n, s, un=un, cons_nodes=cons_nodes, drains=drains):
                 if n == un:
                     return ["P"]
-                if n in cons_nodes:
-                    return ["-"]
+                if n in cons_nodes or n in drains:
+                    return ["-"]          # (a drain loop offers this entry and every later one of the parked list)
                 return [s]
 
             loop_heads = set(h for (h, kind, lst) in cfg.loops if cfg.path_avoiding(h, un, []) is not None and cfg.path_avoiding(un, h, []) is not None)
@@ -124,6 +167,9 @@ def rule_results_consumed(eng, rep, rule="C04-1.every-evaluation-result-is-offer
                 heads = [h for (h, kind, lst) in cfg.loops if cfg.path_avoiding(h, un, []) is not None and cfg.path_avoiding(un, h, []) is not None]
                 for n2, d2 in cfg.g.nodes(data=True):
                     early = d2["kind"] == "stmt" and (isinstance(d2["ast"], ast.Return) or d2.get("jump") == "break")
+                    if early and drains and cfg.path_avoiding(un, n2, drains) is None:
+                        rep.ok(rule, eng.where(fi, d2["ast"]), "early exit from the consumer loop of `%s` only after a loop that offers this and every later parked result to the saved-point slot" % es.listvar)
+                        continue
                     if early and any(cfg.path_avoiding(h, n2, []) is not None and cfg.path_avoiding(un, n2, [h]) is not None for h in heads):
                         rep.bad(rule, eng.where(fi, d2["ast"]), "%s|parked-results-dropped|%s" % (fid, es.listvar),
                                 "early exit from the loop that consumes the parked results `%s`: points evaluated for later list entries are never offered to the model" % es.listvar)
